@@ -74,6 +74,8 @@ pub struct OpRec {
     pub waiting_gate: Option<usize>,
     /// suspended after waking itself during the poll (Step::SelfWake)
     pub waiting_self: bool,
+    /// the scheduling call of this operation ended by unwinding (a panic came out of it)
+    pub call_unwound: bool,
     pub gate_polled: bool,
     pub runner_task: usize,
     pub resolved: bool,
@@ -109,6 +111,7 @@ impl OpRec {
             in_poll: 0,
             waiting_gate: None,
             waiting_self: false,
+            call_unwound: false,
             gate_polled: false,
             runner_task: usize::MAX,
             resolved: false,
@@ -517,6 +520,10 @@ impl World {
             });
             // an overlap / order violation is also a violation of the starting operation's own contract
             // (sync: "once the operations ahead of it have completed"; try_sync / future_sync / pipes: "exclusive, in-order access")
+            if p_ == "C15" && c == "ran-after-panic" && kind.is_sync_like() && self.with(|i| i.ops[op].call_unwound || i.ops[op].ret != 0) {
+                // what the revived queue runs is the lifetime-erased closure of a sync-like call that has long ended
+                self.note("C14", "closure-run-after-its-call-ended", Some(obj), Some(op), d.clone());
+            }
             if p_ == "C05" && c == "use-after-destroy" {
                 self.note("C14", "value-used-after-free", Some(obj), Some(op), d.clone());
             }
